@@ -54,7 +54,7 @@ CHECKS = {
          "DESIGN.md §5 S-NODE / C16"),
  "C17": ("exploration",
          "deterministic simulation: generated register/remove histories interleaved with reveal deliveries on two independent paths, final registry sweep",
-         "Seeded exploration of registry-heavy histories (remove from the middle, id reuse, stale and never-issued ids). Ids returned by add must differ from every live id; after every registry operation a reveal delivery through tick and through loop-back send determines the live set (a handler is live if it fires on either path; a handler that fires on neither is attributed by asking the registry); removed handlers must never fire again on any delivery of the run; removing unregistered ids (incl. ids that alias a live id under truncation or masking) must report NoSuchHandler and change nothing; tables of up to 260 handlers; up to two handlers register further handlers from inside a delivery (the ids returned and the registry state afterwards are judged, not that delivery); a twin node that gets a delivery after every registry operation separates handlers lost to the operation history from static dispatch defects; at the end every id ever seen is removed once more and must answer as the model says.",
+         "Seeded exploration of registry-heavy histories (remove from the middle, id reuse, stale and never-issued ids). Ids returned by add must differ from every live id; after every registry operation a reveal delivery through tick and through loop-back send determines the live set (a handler is live if it fires on either path; a handler that fires on neither is attributed by asking the registry); removed handlers must never fire again on any delivery of the run; removing unregistered ids (incl. ids that alias a live id under truncation or masking) must report NoSuchHandler and change nothing; tables of up to 260 handlers; bursts of 10-29 removals followed by additions with no delivery in between; a twin node that gets a delivery after every registry operation separates handlers lost to the operation history from static dispatch defects; at the end every id ever seen is removed once more and must answer as the model says.",
          "Trusted: the registry model (a map); liveness is observed through deliveries and through remove's own answer. Not a proof.",
          "DESIGN.md §5 S-NODE / C17"),
  "C18": ("exploration",
